@@ -167,8 +167,31 @@ func RandHistory(rng *Rand, maxDim int, lossless, mixed bool, quality int, class
 			hh := &History{W: h.W, H: h.H, Frames: []Frame{f}}
 			cur = hh.Pad(0)
 		}
-		f.Placement = rng.Pick(0, 0, 0, 0, 2)
+		f.Placement = rng.Pick(0, 0, 0, 0, 2, 0, 1, 4, 5, 3)
+		if f.Placement == 3 {
+			f.Pix = append([]byte(nil), f.Pix...)
+			f.UseRGBA()
+			hh := &History{W: h.W, H: h.H, Frames: []Frame{f}}
+			cur = hh.Pad(0)
+			if f.W == h.W && f.H == h.H {
+				cur = f.Pix
+			}
+		}
 		h.Frames = append(h.Frames, f)
+	}
+	if rng.Intn(5) == 0 {
+		blob := func() []byte {
+			switch rng.Intn(4) {
+			case 0:
+				return nil
+			case 1:
+				return []byte{}
+			default:
+				return rng.Bytes(rng.Range(1, 9))
+			}
+		}
+		h.ICC, h.EXIF, h.XMP = blob(), blob(), blob()
+		h.MetaAt = rng.Intn(len(h.Frames) + 1)
 	}
 	return h
 }
@@ -184,4 +207,33 @@ func Signature(h *History, o *Outcome) string {
 		s += fmt.Sprintf("%d%d%d%d%d;", b2i(full), b2i(f.W == 1 && f.H == 1), b2i(f.BlendNone), b2i(f.DispBG), b2i(f.Lossy))
 	}
 	return s
+}
+
+// AddRawFrames turns some frames of a history into pre-encoded frames (AddRawFrame with a
+// random even offset / blend / dispose, or AddFrame(NewBitstreamFrame)).
+func AddRawFrames(rng *Rand, h *History) {
+	for i := range h.Frames {
+		if rng.Intn(3) != 0 && !(i == len(h.Frames)-1 && !h.HasRaw()) {
+			continue
+		}
+		f := &h.Frames[i]
+		f.Placement = 0
+		f.Raw = nil
+		ro := &RawSpec{BlendNone: rng.Bool(), DispBG: rng.Intn(3) == 0, ViaAddFrame: rng.Intn(4) == 0}
+		// a sub-picture at an even offset inside the canvas
+		fw, fh := rng.Range(1, h.W), rng.Range(1, h.H)
+		ro.X, ro.Y = 2*rng.Intn((h.W-fw)/2+1), 2*rng.Intn((h.H-fh)/2+1)
+		if ro.ViaAddFrame || rng.Bool() {
+			fw, fh, ro.X, ro.Y = h.W, h.H, 0, 0
+		}
+		pix := make([]byte, fw*fh*4)
+		for y := 0; y < fh; y++ {
+			for x := 0; x < fw; x++ {
+				if x < f.W && y < f.H {
+					copy(pix[(y*fw+x)*4:(y*fw+x)*4+4], f.Pix[(y*f.W+x)*4:])
+				}
+			}
+		}
+		f.W, f.H, f.Pix, f.RawOp = fw, fh, pix, ro
+	}
 }
